@@ -24,14 +24,13 @@ func valueDsKey(key string) ds.Key
 
 func (v *ValueStore) Put(ctx context.Context, key string, rec *recpb.Record) error
   props C05
-  requires v.validator != nil && v.ds != nil
   requires [key-match] str(rec.Key) == key
   ghostvar $validated bool = false
   ghostvar $existing *recpb.Record = nil
   ghostvar $selected bool = false
   ghostvar $stored *recpb.Record = nil
   ghostvar $data []byte = nil
-  modifies *
+  modifies nothing
   ghost at call(Validate): $validated = ($ret0 == nil && $arg0 == key && $arg1 == rec.Value)
   ghost at call(existingForSelect): $existing = $ret0
   ghost at before call(existingForSelect): assert(held(v.putLocks[lockIndex(key)]) && $arg1 == valueDsKey(key))
@@ -42,7 +41,6 @@ func (v *ValueStore) Put(ctx context.Context, key string, rec *recpb.Record) err
 
 func (v *ValueStore) existingForSelect(ctx context.Context, dskey ds.Key) (*recpb.Record, error)
   props C05
-  requires v.validator != nil && v.ds != nil
   modifies nothing
   ghostvar $ok bool = false
   ghostvar $rec *recpb.Record = nil
@@ -52,7 +50,6 @@ func (v *ValueStore) existingForSelect(ctx context.Context, dskey ds.Key) (*recp
 
 func (v *ValueStore) discardIfUnchanged(ctx context.Context, key string, dskey ds.Key, seen []byte)
   props C05
-  requires v.ds != nil
   requires [key-of-dskey] dskey == valueDsKey(key)
   ghostvar $cur []byte = nil
   ghostvar $same bool = false
@@ -63,9 +60,8 @@ func (v *ValueStore) discardIfUnchanged(ctx context.Context, key string, dskey d
 
 func (v *ValueStore) Get(ctx context.Context, key string) (*recpb.Record, error)
   props C05 C04
-  requires v.ds != nil
   ghostvar $exp bool = true
-  modifies *
+  modifies nothing
   ensures [key-match] imp(result0 != nil, str(result0.Key) == key && result1 == nil)
   ensures [internal-not-expired] imp(result0 != nil, !$exp)
   ghost at before call(Get): assert($arg1 == valueDsKey(key))
@@ -73,10 +69,9 @@ func (v *ValueStore) Get(ctx context.Context, key string) (*recpb.Record, error)
 
 func (v *ValueStore) sweep(ctx context.Context, prefix string)
   props C05
-  requires v.ds != nil
   ghostvar $exp bool = false
   ghostvar $k string = ""
-  modifies *
+  modifies nothing
   ghost at call(expired): $exp = $ret0
   ghost at before call(discardIfUnchanged): assert($exp && $arg2 == valueDsKey($arg1))
 @*/
